@@ -1,6 +1,6 @@
 (* The per-width compact code of src/compact.rs (CompactImpl.v) computes the
    specification (CompactSpec.v). *)
-Require Import Scale.Bytes Scale.Eres Scale.Prog Scale.ProgFacts Scale.CompactImpl Scale.CompactSpec.
+Require Import Scale.Bytes Scale.Eres Scale.Prog Scale.ProgFacts Scale.ProgMore Scale.CompactImpl Scale.CompactSpec.
 
 Lemma E6 : 2^6 = 64. Proof. reflexivity. Qed.
 Lemma E14 : 2^14 = 16384. Proof. reflexivity. Qed.
@@ -156,7 +156,6 @@ Proof.
 Qed.
 
 (* ---------------- decoders ---------------- *)
-Definition oview {A} (o : out A) : out A := match o with OErr _ => OErr [] | x => x end.
 Definition of_opt {A} (x : option (A * list byte)) : out A :=
   match x with Some (a, r) => OOk a r | None => OErr [] end.
 
